@@ -306,5 +306,142 @@ theorem sh_execArray (ha : a ≤ N) (hL : L ≤ N) : RelS (Sh bp k N a) (PostC b
 theorem sh_execClosure (ha : a ≤ N) (hL : L ≤ N) : RelS (Sh bp k N a) (PostC bp k L) execClosure execClosure := by
   unfold execClosure; shrun
 
+/-! ### dispatch and `step` -/
+
+/-- the opcodes covered by `frame_shift_partial`: everything except CALL, CALLNAME, RETURN, THROW,
+    SETUPTRY / SETUPCATCH / SETUPFINALLY / FINALIZER (handler stack), MAP and GETINDEX -/
+def coveredOps : List Nat :=
+  [OpNoOp, OpConstant, OpGetGlobal, OpSetGlobal, OpGetLocal, OpSetLocal, OpGetBuiltin, OpBinaryOp, OpUnary,
+   OpEqual, OpNotEqual, OpJump, OpJumpFalsy, OpAndJump, OpOrJump, OpArray, OpSliceIndex, OpSetIndex, OpNull, OpPop,
+   OpGetFree, OpSetFree, OpGetLocalPtr, OpGetFreePtr, OpClosure, OpIterInit, OpIterNext, OpIterKey, OpIterValue,
+   OpLoadModule, OpStoreModule, OpDefineLocal, OpTrue, OpFalse]
+
+/-- the covered opcodes that READ a local slot addressed by their operand -/
+def localReadOps : List Nat := [OpGetLocal, OpSetLocal, OpGetLocalPtr]
+
+theorem sh_dispatch (F : FloatOps) (op : Nat) (hcov : op ∈ coveredOps) (ha : a ≤ N) (hL : L ≤ N) :
+    RelS (fun s t => Sh bp k N a s t ∧ (op ∈ localReadOps → OpLt L s)) (PostC bp k L) (dispatch F op) (dispatch F op) := by
+  have weak : ∀ {m : M Ctl}, RelS (Sh bp k N a) (PostC bp k L) m m →
+      RelS (fun s t => Sh bp k N a s t ∧ (op ∈ localReadOps → OpLt L s)) (PostC bp k L) m m :=
+    fun h => h.conseq (fun _ _ h => h.1) (fun _ _ _ _ h => h)
+  simp only [coveredOps, List.mem_cons, List.not_mem_nil, or_false] at hcov
+  rcases hcov with h | h | h | h | h | h | h | h | h | h | h | h | h | h | h | h | h | h | h | h | h | h | h | h | h | h | h | h | h | h | h | h | h | h <;> subst h
+  · exact weak (sh_execNoOp ha hL)
+  · exact weak (sh_execConstant ha hL)
+  · exact weak (sh_execGetGlobal ha hL)
+  · exact weak (sh_execSetGlobal ha hL)
+  · exact (sh_execGetLocal ha hL).conseq (fun _ _ h => ⟨h.1, h.2 (by simp [localReadOps])⟩) (fun _ _ _ _ h => h)
+  · exact (sh_execSetLocal ha hL).conseq (fun _ _ h => ⟨h.1, h.2 (by simp [localReadOps])⟩) (fun _ _ _ _ h => h)
+  · exact weak (sh_execGetBuiltin ha hL)
+  · exact weak (sh_execBinaryOp F ha hL)
+  · exact weak (sh_execUnary F ha hL)
+  · exact weak (sh_execEqual F _ ha hL)
+  · exact weak (sh_execEqual F _ ha hL)
+  · exact weak (sh_execJump ha hL)
+  · exact weak (sh_execJumpFalsy ha hL)
+  · exact weak (sh_execAndJump ha hL)
+  · exact weak (sh_execOrJump ha hL)
+  · exact weak (sh_execArray ha hL)
+  · exact weak (sh_execSliceIndex ha hL)
+  · exact weak (sh_execSetIndex ha hL)
+  · exact weak (sh_execNull ha hL)
+  · exact weak (sh_execPop ha hL)
+  · exact weak (sh_execGetFree ha hL)
+  · exact weak (sh_execSetFree ha hL)
+  · exact (sh_execGetLocalPtr ha hL).conseq (fun _ _ h => ⟨h.1, h.2 (by simp [localReadOps])⟩) (fun _ _ _ _ h => h)
+  · exact weak (sh_execGetFreePtr ha hL)
+  · exact weak (sh_execClosure ha hL)
+  · exact weak (sh_execIterInit ha hL)
+  · exact weak (sh_execIterNext _ ha hL)
+  · exact weak (sh_execIterNext _ ha hL)
+  · exact weak (sh_execIterNext _ ha hL)
+  · exact weak (sh_execLoadModule ha hL)
+  · exact weak (sh_execStoreModule ha hL)
+  · exact weak (sh_execDefineLocal ha hL)
+  · exact weak (sh_execTrue ha hL)
+  · exact weak (sh_execFalse ha hL)
+
+/-- `vm.ip++ ; vm.curInsts[vm.ip]` -/
+def fetchOp : M Nat := do
+  bumpIp 1
+  instAt (← getIp)
+
+theorem step_eq (F : FloatOps) : step F = (fetchOp >>= fun op => noteTrace op >>= fun _ => dispatch F op) := by
+  simp only [step, fetchOp, bind_assoc]
+
+/-- what is asked of the instruction about to be executed by the child: it is a covered opcode,
+    and if it reads a local slot, its operand is below `L` (`NumLocals` of the function) -/
+def StepOk (L : Nat) (s : State) : Prop :=
+  ∀ op s1, exec fetchOp s = (.ok op, s1) → op ∈ coveredOps ∧ (op ∈ localReadOps → OpLt L s1)
+
+theorem sh_fetchOp : RelS (Sh bp k N a) (PQ Eq (Sh bp k N a)) fetchOp fetchOp := by
+  unfold fetchOp
+  refine RelS.bindV (sh_bumpIp 1) ?_
+  intro _ _ _
+  refine RelS.bindV sh_getIp ?_
+  intro x y h
+  subst h
+  exact sh_foot (foot_instAt _)
+
+theorem OpLt_noteTrace (op : Nat) (s s' : State) (r : Unit) (h : OpLt L s) (e : exec (noteTrace op) s = (.ok r, s')) :
+    OpLt L s' := by
+  have hv : view s' = view s := by
+    have : ∃ tr st, exec (noteTrace op) s = (.ok (), { s with trace := tr, steps := st }) := by
+      unfold noteTrace
+      simp only [exec_bind, exec_getS]
+      split
+      · exact ⟨_, _, rfl⟩
+      · exact ⟨_, _, rfl⟩
+    obtain ⟨tr, st, e'⟩ := this
+    rw [e'] at e
+    simp only [Prod.mk.injEq, Except.ok.injEq] at e
+    rw [← e.2]
+    rfl
+  intro idx s'' e1
+  have d := (foot_opnd1 1).dep s' s hv
+  rw [e1] at d
+  rcases e2 : exec (opnd1 1) s with ⟨r2, s2⟩
+  rw [e2] at d
+  simp only at d
+  exact h idx s2 (by rw [e2, ← d.1])
+
+/-- **frame_shift_partial.**  One instruction of the child (frame 0, base 0) and one instruction of
+    the parent inside the callee's frame (frame k, base bp), started in `ShB`-related states, when the
+    instruction is a covered opcode: if both `step`s end normally, either both continue and the states
+    are `ShB`-related again, or the child's loop returns with `vm.err` set (the error was raised inside
+    the callee, which has no handler: the child's `Run` returns it to the Go caller). -/
+theorem frame_shift_partial (F : FloatOps) :
+    RelS (fun s t => ShB bp k L s t ∧ StepOk L s) (PostC bp k L) (step F) (step F) := by
+  intro s t ⟨⟨N, a, h, ha, hL⟩, hok⟩ r s' r' t' h1 h2
+  rw [step_eq, exec_bind] at h1 h2
+  rcases e1 : exec fetchOp s with ⟨r1, s1⟩
+  rcases e2 : exec fetchOp t with ⟨r2, t1⟩
+  rw [e1] at h1
+  rw [e2] at h2
+  cases r1 with
+  | error e => simp at h1
+  | ok op =>
+    cases r2 with
+    | error e => simp at h2
+    | ok op' =>
+      simp only at h1 h2
+      obtain ⟨hop, hs1⟩ := sh_fetchOp s t h op s1 op' t1 e1 e2
+      subst hop
+      obtain ⟨hcov, hloc⟩ := hok op s1 e1
+      rw [exec_bind] at h1 h2
+      rcases e3 : exec (noteTrace op) s1 with ⟨r3, s2⟩
+      rcases e4 : exec (noteTrace op) t1 with ⟨r4, t2⟩
+      rw [e3] at h1
+      rw [e4] at h2
+      cases r3 with
+      | error e => simp at h1
+      | ok u =>
+        cases r4 with
+        | error e => simp at h2
+        | ok u' =>
+          simp only at h1 h2
+          have hs2 := (sh_noteTrace op s1 t1 hs1 u s2 u' t2 e3 e4).2
+          exact sh_dispatch F op hcov ha hL s2 t2 ⟨hs2, fun hl => OpLt_noteTrace op s1 s2 u (hloc hl) e3⟩ r s' r' t' h1 h2
+
 end
 end UgoVerif.Proofs.Shift
